@@ -337,7 +337,7 @@ META = dict(
 )
 
 MANIFEST = dict(
-    text="For C12: the real main_driver/non_trivial/check_files/check_options/print_pqr on symbolic option valuations with a symbolic fault schedule (any one stage raises any of the listed exception types): the exception always propagates and the output PQR path is never opened; without faults the output is opened exactly once, after the last pipeline stage returned, and all atom lines are written in it; symbolic residue charges: non-integral total fails with no output; symbolic file existence / pH / option combinations: every unusable combination is refused before any stage runs. Success side: several peptides under one or a blank chain id, each ending in OXT, are processed by the real set_termini (symbolic hidden chain ends), and an exhaustive table lemma over force field x residue x chain position on the real pipeline. Round 4 (success side, table): insertion-code numbering, waters sharing the chain id of a peptide or of a nucleic-acid strand and listed after it.",
+    text="For C12: the real main_driver/non_trivial/check_files/check_options/print_pqr on symbolic option valuations with a symbolic fault schedule (any one stage raises any of the listed exception types): the exception always propagates and the output PQR path is never opened; without faults the output is opened exactly once, after the last pipeline stage returned, and all atom lines are written in it; symbolic residue charges: non-integral total fails with no output; symbolic file existence / pH / option combinations: every unusable combination is refused before any stage runs. Success side: several peptides under one or a blank chain id, each ending in OXT, are processed by the real set_termini (symbolic hidden chain ends), and an exhaustive table lemma over force field x residue x chain position on the real pipeline. Round 4 (success side, table): insertion-code numbering, waters sharing the chain id of a peptide or of a nucleic-acid strand and listed after it. Round 5 (success side): utilities.dihedral is defined for exactly planar atom quadruples (finite menu in three planes, table); protonated acids end with one acid proton after every history of the carboxylic optimisation + cleanup (C03/C14 harness).",
     note="Trusted: z3, symx, the stage stubs' contract (return or raise). The success side is a finite table on template geometry (exhaustive, not symbolic) - absence of exceptions on arbitrary coordinates is outside the claim. Known finding: PEOEPB cannot parameterise a C-terminal glycine.",
     technique="symbolic execution of real driver code over symbolic options + symbolic fault schedule (symx) + SMT verdict per path; table lemma for the success side",
     design="DESIGN.md section 3 C12",
